@@ -11,6 +11,17 @@ open CffiVerif CffiVerif.CInt CffiVerif.IntPaths CffiVerif.Proto
    answer: `ok <result buffer> <value of the low bytes read as T>` or `err <ErrKind>` (bad `ev`)
 -/
 
+/-- an integer of any magnitude: decimal, or `0x…` / `-0x…` (the harness writes ints beyond
+Python's int->str digit limit in hex) -/
+def hexNat? (cs : List Char) : Option Nat :=
+  if cs.isEmpty then none else
+  cs.foldlM (fun acc c => (hexDigit? c).map (fun d => 16 * acc + d)) 0
+
+def intLit? (s : String) : Option Int :=
+  if s.startsWith "-0x" then (hexNat? (s.drop 3).toString.toList).map (fun n => -(n : Int))
+  else if s.startsWith "0x" then (hexNat? (s.drop 2).toString.toList).map (fun n => (n : Int))
+  else int? s
+
 def kind? : String → Option Kind
   | "s" => some .signed | "u" => some .unsigned | "b" => some .bool
   | "c" => some .char | "w" => some .swchar | _ => none
@@ -32,13 +43,13 @@ def showBytes : Except ErrKind (List UInt8) → String
 
 def step (_ : Unit) : List String → Unit × String
   | ["store", b, k, v, old] =>
-    match type? b k, int? v, hexBytes? old with
+    match type? b k, intLit? v, hexBytes? old with
     | some T, some v, some old =>
       let (mem, res) := convertFromObject T old v
       ((), s!"ok A={bytesHex mem},{showRes res},{showInt (readInt T mem)} B={showBytes (apiArg T v)}")
     | _, _, _ => ((), "bad-op")
   | ["cb", b, k, v, ev, enc, res0] =>
-    match type? b k, int? v, hexBytes? res0 with
+    match type? b k, intLit? v, hexBytes? res0 with
     | some T, some v, some res0 =>
       let ev? : Option (Option Int) := if ev == "none" then some none else (int? ev).map some
       match ev?, enc with
